@@ -50,6 +50,10 @@ pub enum LeaderStrategy {
     /// validly signed but malformed blocks (C10): parent in the future, first slice without parent,
     /// undecodable transactions, contradictory last flags, parent switched twice / to itself, ...
     Malformed,
+    /// a whole window of single blocks, except that in its last slot the next window's leader gets
+    /// one block and everybody else another (which is the one that gets certified): the next leader
+    /// has optimistically started on a parent that never becomes ready
+    HandoverSplit,
 }
 
 #[derive(Clone, Debug)]
@@ -81,7 +85,7 @@ pub fn draw_byz_cfg(_p: &Profile, byz_nodes: &[usize], n: usize) -> ByzCfg {
     let leader = if _p.hostile && kernel::choose(CFG, 2) == 1 {
         LeaderStrategy::Malformed
     } else {
-        [LeaderStrategy::Silent, LeaderStrategy::Equivocate, LeaderStrategy::Single, LeaderStrategy::EquivocateMixed, LeaderStrategy::Equivocate][kernel::choose(CFG, 5) as usize]
+        [LeaderStrategy::Silent, LeaderStrategy::Equivocate, LeaderStrategy::Single, LeaderStrategy::EquivocateMixed, LeaderStrategy::Equivocate, LeaderStrategy::HandoverSplit, LeaderStrategy::HandoverSplit][kernel::choose(CFG, 7) as usize]
     };
     let mut side = vec![0u8; n];
     let mut k = kernel::choose(CFG, 2) as u8;
@@ -339,14 +343,44 @@ impl Adv {
             let parent = self.choose_parent(obs, first);
             let mut tip_a = parent.clone();
             let mut tip_b = parent;
-            let slots_to_produce = 1 + kernel::choose(ADV, SLOTS_PER_WINDOW);
+            let slots_to_produce = if strategy == LeaderStrategy::HandoverSplit { SLOTS_PER_WINDOW } else { 1 + kernel::choose(ADV, SLOTS_PER_WINDOW) };
             for k in 0..slots_to_produce {
                 let slot = Slot::new(first.inner() + k);
                 let n_slices = 1 + kernel::choose(ADV, 3) as usize;
                 let a = wire::simple_block(slot, tip_a.clone(), n_slices, 0xA000 + slot.inner(), &kp.sk);
                 let all = self.targets_all();
                 match strategy {
-                    LeaderStrategy::Single => {
+                    LeaderStrategy::HandoverSplit if k + 1 == SLOTS_PER_WINDOW => {
+                        let next_leader = ((w + 1) % n) as usize;
+                        // same parent as the other block: the one everybody notarized in the slot before
+                        let b = wire::simple_block(slot, tip_a.clone(), n_slices, 0xB000 + slot.inner(), &kp.sk);
+                        let only_next: Vec<usize> = all.iter().copied().filter(|i| *i == next_leader).collect();
+                        let others: Vec<usize> = all.iter().copied().filter(|i| *i != next_leader).collect();
+                        self.send_block(leader, &a, &only_next, k * 60);
+                        self.send_block(leader, &b, &others, k * 60);
+                        kernel::fault("byzantine_leader_handover_split");
+                        // the Byzantine validators help the majority's block to its certificate
+                        for &bz in &self.cfg.byz.nodes.clone() {
+                            let kpb = keys::keypair(bz);
+                            let me = alpenglow::ValidatorIndex::new(bz as u64);
+                            for blk in [&b] {
+                                let notar = vote_bytes(Vote::new_notar(slot, blk.hash.clone(), &kpb.vsk, me));
+                                self.send_a2a(bz, &notar, &all);
+                            }
+                            // and vote for the rest of their own window
+                            for (ps, hs) in self.blocks.range(first..slot).map(|(s, h)| (*s, h.clone())).collect::<Vec<_>>() {
+                                let notar = vote_bytes(Vote::new_notar(ps, hs[0].clone(), &kpb.vsk, me));
+                                self.send_a2a(bz, &notar, &all);
+                            }
+                        }
+                        let e = self.blocks.entry(slot).or_default();
+                        // the block the majority got first: the Byzantine voters vote for it
+                        e.push(b.hash.clone());
+                        e.push(a.hash.clone());
+                        tip_a = (slot, a.hash.clone());
+                        tip_b = (slot, b.hash.clone());
+                    }
+                    LeaderStrategy::Single | LeaderStrategy::HandoverSplit => {
                         self.send_block(leader, &a, &all, k * 60);
                         self.blocks.entry(slot).or_default().push(a.hash.clone());
                         tip_a = (slot, a.hash.clone());
